@@ -14,7 +14,7 @@ N == Len(Rec)
 VARIABLES l, cs, sent, viol, nv
 vars == <<l, cs, sent, viol, nv>>
 
-NoRq == [method |-> "GET", version |-> "1.1", api |-> "flow", despite |-> FALSE, target |-> "/", hosthex |-> "", added |-> <<>>, orig |-> <<>>]
+NoRq == [method |-> "GET", version |-> "1.1", api |-> "flow", despite |-> FALSE, target |-> "/", hosthex |-> "", hostporthex |-> "", added |-> <<>>, orig |-> <<>>]
 
 Init ==
   /\ l = 1
